@@ -15,6 +15,15 @@ func init() {
 	const ogIf = "\tif observedGeneration, ok, err := unstructured.NestedInt64(\n\t\tunstr.Object, \"status\", \"observedGeneration\",\n\t); err == nil && ok && observedGeneration != obj.GetGeneration() {\n\t\treturn false, []string{\".status outdated\"}\n\t}"
 	const cndGen = "\t\t// Check the condition's observed generation, if set\n\t\tif observedGeneration, ok, err := unstructured.NestedInt64(\n\t\t\tcond, \"observedGeneration\",\n\t\t); err == nil && ok && observedGeneration != obj.GetGeneration() {\n\t\t\treturn false, \"outdated\"\n\t\t}\n"
 	const cndStatus = "\t\tif cond[\"status\"] == cp.Status {\n\t\t\treturn true, \"\"\n\t\t}\n"
+	const cndImport = "import (\n\t\"fmt\"\n"
+	const cndImportSlices = "import (\n\t\"fmt\"\n\t\"slices\"\n"
+	const cndLoop = "\tfor _, condI := range conditions {\n\t\tcond, ok := condI.(map[string]any)\n\t\tif !ok {\n\t\t\t// no idea what this is supposed to be\n\t\t\treturn false, \"malformed\"\n\t\t}\n\n" +
+		"\t\tif cond[\"type\"] != cp.Type {\n\t\t\t// not the type we are probing for\n\t\t\tcontinue\n\t\t}\n\n" +
+		cndGen + "\n" + cndStatus + "\t\treturn false, \"wrong status\"\n\t}\n\treturn false, \"not reported\"\n"
+	const cndIndexFunc = "\ti := slices.IndexFunc(conditions, func(condI any) bool {\n\t\tcond, ok := condI.(map[string]any)\n\t\treturn !ok || cond[\"type\"] == cp.Type\n\t})\n" +
+		"\tif i < 0 {\n\t\treturn false, \"not reported\"\n\t}\n\n\tcond, ok := conditions[i].(map[string]any)\n\tif !ok {\n\t\treturn false, \"malformed\"\n\t}\n\n" +
+		"\tif observedGeneration, ok, err := unstructured.NestedInt64(\n\t\tcond, \"observedGeneration\",\n\t); err == nil && ok && observedGeneration != obj.GetGeneration() {\n\t\treturn false, \"outdated\"\n\t}\n\n" +
+		"\tif cond[\"status\"] == cp.Status {\n\t\treturn true, \"\"\n\t}\n\treturn false, \"wrong status\"\n"
 	const prsProbesDoc = "// ParseProbes takes a []corev1alpha1.Probe and compiles it into a Prober.\n"
 	const prsSwitch = "\t\tvar (\n\t\t\tprobe probing.Prober\n\t\t\terr   error\n\t\t)\n\n\t\tswitch {\n" +
 		"\t\tcase probeSpec.FieldsEqual != nil:\n\t\t\tprobe = &probing.FieldsEqualProbe{\n\t\t\t\tFieldA: probeSpec.FieldsEqual.FieldA,\n\t\t\t\tFieldB: probeSpec.FieldsEqual.FieldB,\n\t\t\t}\n\n" +
@@ -196,6 +205,23 @@ func init() {
 		Mutant{Prop: "C17", Name: "r4-benign-nested-generation-test", File: cnd, Benign: true,
 			Old: cndGen,
 			New: "\t\tobservedGeneration, found, ogErr := unstructured.NestedInt64(cond, \"observedGeneration\")\n\t\tif ogErr == nil && found {\n\t\t\tif gen := obj.GetGeneration(); gen != observedGeneration {\n\t\t\t\treturn false, \"outdated\"\n\t\t\t}\n\t\t}\n"},
+
+		// the search loop written with slices.IndexFunc and a predicate closure (the closure is judged
+		// as the loop body), and ways of breaking that shape
+		Mutant{Prop: "C17", Name: "r4-benign-search-by-indexfunc", File: cnd, Benign: true,
+			Old: cndLoop, New: cndIndexFunc, More: []Edit{{File: cnd, Old: cndImport, New: cndImportSlices}}},
+		Mutant{Prop: "C17", Name: "r4-indexfunc-predicate-matches-other-types", File: cnd,
+			Old: cndLoop, New: strings.Replace(cndIndexFunc, "return !ok || cond[\"type\"] == cp.Type", "return !ok || cond[\"type\"] != cp.Type", 1),
+			More:   []Edit{{File: cnd, Old: cndImport, New: cndImportSlices}},
+			Expect: []string{"C17.R4@"}},
+		Mutant{Prop: "C17", Name: "r4-indexfunc-predicate-compares-status-field", File: cnd,
+			Old: cndLoop, New: strings.Replace(cndIndexFunc, "return !ok || cond[\"type\"] == cp.Type", "return !ok || cond[\"type\"] == cp.Status", 1),
+			More:   []Edit{{File: cnd, Old: cndImport, New: cndImportSlices}},
+			Expect: []string{"C17.R4@"}},
+		Mutant{Prop: "C17", Name: "r4-indexfunc-other-element-evaluated", File: cnd,
+			Old: cndLoop, New: strings.Replace(cndIndexFunc, "conditions[i].(map[string]any)", "conditions[len(conditions)-1-i].(map[string]any)", 1),
+			More:   []Edit{{File: cnd, Old: cndImport, New: cndImportSlices}},
+			Expect: []string{"C17.R4@"}},
 
 		// ---- R5 -------------------------------------------------------------------------------
 		Mutant{Prop: "C17", Name: "r5-missing-field-b-ignored", File: feq,
